@@ -51,6 +51,13 @@ def answer(db, req):
         return {'err': exc_name(e)}
 
 
+def db_answer_values(db, name):
+    try:
+        return [ex['example_id'] for ex in db.get_dataset(name)]
+    except BaseException:  # noqa
+        return None
+
+
 def one_case(rng, tmp):
     common.gc_point()
     from lazy_dataset.database import DictDatabase, JsonDatabase
@@ -149,6 +156,15 @@ def one_case(rng, tmp):
         if db is not None:
             impl['names'] = list(db.dataset_names)
             impl['answers'] = [answer(db, r) for r in reqs]
+            # a list request is the concatenation of its members, in the order and as often as they are named
+            for r, a in zip(reqs, impl['answers']):
+                if not isinstance(r, str):
+                    singles = [db_answer_values(db, nm) for nm in r]
+                    if all(s_ is not None for s_ in singles) and 'ok' in a:
+                        want_ids = [i for s_ in singles for i in s_]
+                        got_ids = [row[0] for row in a['ok']]
+                        if got_ids != want_ids:
+                            fails.append(('list_request_is_not_the_concatenation', {'request': r, 'example_ids': got_ids, 'concatenation_of_members': want_ids}))
             # repeated requests are served from one shared dataset while it is alive
             for r in reqs:
                 if isinstance(r, str):
